@@ -74,6 +74,9 @@ func (m *Master) runReply(tid, name, id, envID, src, evt, dst string, rep Reply)
 		m.rec("exec", "REPLY", tid, t.AgentID, 0, map[string]interface{}{"name": name, "id": id, "event": evt, "error": errText, "state": state, "delivered": delivered})
 	}
 	if t.Terminal {
+		if rep.AfterDeath && (rep.Kind == "ok" || rep.Kind == "") && name != "MesosCommand_TriggerHook" {
+			reply("", dst)
+		}
 		return
 	}
 	switch rep.Kind {
